@@ -187,7 +187,13 @@ def run_case(ctx, c):
             return
         ts, tf = [live.tree(p) for p in slow], [live.tree(p) for p in fast]
         if ts != tf:
-            missing = [t for t in ts if t not in tf]
+            rest = list(tf)
+            missing = []
+            for t in ts:            # multiset difference: the corpus may hold the same string several times
+                if t in rest:
+                    rest.remove(t)
+                else:
+                    missing.append(t)
             sig = "prefilter-rejects-matching-packet" if missing else "prefilter-adds-packet"
             # root-cause classification: a regex delimiter whose pattern starts with a zero-width assertion about the bytes on
             # its LEFT (\b, look-behind, ^), in a Data field left as Any
